@@ -2,6 +2,7 @@ package main
 
 import (
 	"fmt"
+	"sync"
 	"time"
 
 	. "verifharness/hlib"
@@ -26,14 +27,27 @@ func runReplies(cfg *RunCfg) {
 	callName := srv.RouteCallFunc(echo)
 	ctl := erpc.NewPeer(erpc.PeerConfig{})
 	control := ServePair(srv, ctl)
+	var holdMu sync.Mutex
+	var holdArmed bool
+	var holdReached, holdRelease chan struct{}
 	erpc.VerifSetGate(func(point string, s erpc.Session) {
 		if point == "reply.predone" {
 			time.Sleep(15 * time.Millisecond)
 		}
+		if point == "call.stored" {
+			holdMu.Lock()
+			armed, reached, release := holdArmed, holdReached, holdRelease
+			holdArmed = false
+			holdMu.Unlock()
+			if armed {
+				close(reached)
+				<-release
+			}
+		}
 	})
 	defer erpc.VerifSetGate(nil)
 	distinct := DistinctSet{}
-	classes := []string{"ok", "dup2", "dup3", "wrong-seq", "error-status", "bad-body", "reply+garbage", "reply+oversize", "truncated", "nothing", "close-then-eof", "close-then-oversize", "close-then-reply"}
+	classes := []string{"ok", "dup2", "dup3", "wrong-seq", "error-status", "bad-body", "reply+garbage", "reply+oversize", "truncated", "nothing", "close-then-eof", "close-then-oversize", "close-then-reply", "eof-in-asynccall", "garbage-in-asynccall"}
 	for i := 0; i < cfg.N; i++ {
 		if len(st.OracleFailures) >= 6 {
 			st.Count("stopped-early-after-failures")
@@ -58,13 +72,44 @@ func runReplies(cfg *RunCfg) {
 		distinct.Add(fmt.Sprintf("%s/%d/%d", class, ncalls, i%7))
 		ch := make(chan erpc.CallCmd, 16)
 		var cmds []erpc.CallCmd
-		for k := 0; k < ncalls; k++ {
-			var res string
-			cmds = append(cmds, sess.AsyncCall("/x/y", fmt.Sprintf("arg-%d", k), &res, ch))
+		if class == "eof-in-asynccall" || class == "garbage-in-asynccall" {
+			// the stream ends (or turns to garbage) while a caller is INSIDE AsyncCall: stored in
+			// the pending table, holding the call's mutex, request not yet written
+			ncalls = 1
+			holdMu.Lock()
+			holdArmed, holdReached, holdRelease = true, make(chan struct{}), make(chan struct{})
+			reached, release := holdReached, holdRelease
+			holdMu.Unlock()
+			got := make(chan erpc.CallCmd, 1)
+			go func() {
+				var res string
+				got <- sess.AsyncCall("/x/y", "arg-held", &res, ch)
+			}()
+			select {
+			case <-reached:
+			case <-time.After(5 * time.Second):
+			}
+			if class == "garbage-in-asynccall" {
+				sc.Write([]byte{0, 0, 0, 3, 9, 9, 9})
+			}
+			sc.CloseWrite()
+			time.Sleep(30 * time.Millisecond) // let the disconnect path reach the call's mutex
+			close(release)
+			select {
+			case c := <-got:
+				cmds = append(cmds, c)
+			case <-time.After(8 * time.Second):
+				st.Fail(i, "caller-blocked", "AsyncCall did not return after the stream ended while it was issuing the call", human)
+			}
+		} else {
+			for k := 0; k < ncalls; k++ {
+				var res string
+				cmds = append(cmds, sess.AsyncCall("/x/y", fmt.Sprintf("arg-%d", k), &res, ch))
+			}
 		}
 		// the scripted server reads the requests and answers
 		var seqs []int32
-		for k := 0; k < ncalls; k++ {
+		for k := 0; k < ncalls && class != "eof-in-asynccall" && class != "garbage-in-asynccall"; k++ {
 			m, err := rp.Recv(5 * time.Second)
 			if err != nil {
 				break
